@@ -501,6 +501,13 @@ func (fo *folder) Fold(fn *ssa.Function, args []*fval, depth int) ([]*fval, bool
 				}
 			case *ssa.FieldAddr:
 				base := val(x.X)
+				if base != nil && strings.HasSuffix(base.sym, ".Params()") {
+					if st, ok := x.X.Type().Underlying().(*types.Pointer).Elem().Underlying().(*types.Struct); ok && st.Field(x.Field).Name() == "Name" {
+						name := curveLibraryName(strings.TrimSuffix(base.sym, ".Params()"))
+						env[x] = &fval{cell: &fcell{get: func() *fval { return fconst(constant.MakeString(name)) }, set: func(*fval) { fo.fail("store into the parameters of a library curve") }}}
+						break
+					}
+				}
 				if base == nil || base.cell == nil {
 					fo.fail("field of something that is not followed")
 					return nil, false
@@ -649,6 +656,13 @@ func (fo *folder) Fold(fn *ssa.Function, args []*fval, depth int) ([]*fval, bool
 					}
 					break
 				}
+				if x.Call.IsInvoke() && x.Call.Method.Name() == "Params" && len(x.Call.Args) == 0 {
+					// the parameters of a curve the library hands out: opaque, but for its name (a fact of the library)
+					if recv := val(x.Call.Value); recv != nil && curveLibraryName(recv.sym) != "" {
+						env[x] = &fval{sym: recv.sym + ".Params()"}
+						break
+					}
+				}
 				callee := x.Call.StaticCallee()
 				if callee == nil && !x.Call.IsInvoke() {
 					if fv := val(x.Call.Value); fv != nil && fv.fn != nil {
@@ -720,6 +734,16 @@ func (fo *folder) pureLibrary(name string, as []*fval) *fval {
 		}
 		return constant.StringVal(as[i].k), true
 	}
+	if name == "(encoding/asn1.ObjectIdentifier).Equal" && len(as) == 2 && (as[0].isList || as[0].isNil) && (as[1].isList || as[1].isNil) {
+		same := len(as[0].list) == len(as[1].list)
+		for i := 0; same && i < len(as[0].list); i++ {
+			if as[0].list[i].k == nil || as[1].list[i].k == nil {
+				return nil
+			}
+			same = constant.Compare(as[0].list[i].k, token.EQL, as[1].list[i].k)
+		}
+		return fconst(constant.MakeBool(same))
+	}
 	switch name {
 	case "fmt.Errorf", "errors.New":
 		return &fval{sym: "error"}
@@ -751,4 +775,22 @@ func (fo *folder) pureLibrary(name string, as []*fval) *fval {
 		return fconst(constant.MakeBool(strings.ToLower(a) == strings.ToLower(b)))
 	}
 	return nil
+}
+
+// curveLibraryName: the Params().Name of the curves the standard library and the brainpool package hand out (a fact of
+// those libraries: elliptic.P256() is "P-256", brainpool.P256r1() is "brainpoolP256r1").
+func curveLibraryName(sym string) string {
+	sym = strings.TrimSuffix(sym, "()")
+	i := strings.LastIndex(sym, ".")
+	if i < 0 {
+		return ""
+	}
+	pkg, fn := sym[:i], sym[i+1:]
+	switch {
+	case pkg == "crypto/elliptic" && strings.HasPrefix(fn, "P") && len(fn) == 4:
+		return "P-" + fn[1:]
+	case strings.HasSuffix(pkg, "/brainpool") && strings.HasPrefix(fn, "P"):
+		return "brainpool" + fn
+	}
+	return ""
 }
